@@ -285,5 +285,149 @@ Proof.
       unfold sub_tok in Es. destruct (isdir a1) eqn:Hd.
       * apply tsub_inj in Es. apply IHc in Es; assumption.
       * cbn [eff]. f_equal.
-        specialize (Wdd1 Hd). specialize (Wdd2 Hd). rewrite Wdd1, Wdd2. reflexivity.
+        rewrite Wdd1, Wdd2 by reflexivity. reflexivity.
 Qed.
+
+(* ------------------------------------------------------------------ clean builds *)
+
+Lemma flat_map_singleton {A B : Type} (f : A -> B) (l : list A) : flat_map (fun x => [f x]) l = map f l.
+Proof. induction l as [|a l IH]; [reflexivity|]. cbn [flat_map map app]. rewrite IH. reflexivity. Qed.
+
+Lemma map_pair_ext_Forall {A B : Type} (f g : A -> B) (l : list (bytes * A)) :
+  Forall (fun nc => f (snd nc) = g (snd nc)) l ->
+  map (fun nc => (fst nc, f (snd nc))) l = map (fun nc => (fst nc, g (snd nc))) l.
+Proof. induction 1 as [|[n c] l H _ IH]; [reflexivity|]. cbn [map fst snd] in *. rewrite H, IH. reflexivity. Qed.
+
+Section WithMatch.
+Variable matches : bytes -> bytes -> bool.
+
+Definition kept (flt : list bytes) (nc : bytes * vtree) : list (bytes * stree) :=
+  if excluded matches flt (fst nc) then [] else [(fst nc, clean_build matches flt (snd nc))].
+
+Lemma clean_build_node flt i cs :
+  clean_build matches flt (VNode i cs) = SNode i i (sort_by (flat_map (kept flt) cs)).
+Proof.
+  unfold clean_build. cbn [rebuild s_children carry listing_reused]. rewrite andb_false_r.
+  do 2 f_equal. apply flat_map_ext. intros [n c]. unfold kept, clean_build. cbn [fst snd lookup]. reflexivity.
+Qed.
+
+Lemma clean_build_missing flt : clean_build matches flt VMissing = SMissing.
+Proof. reflexivity. Qed.
+
+(* a clean unfiltered build records the tree itself, sorted *)
+Lemma eff_clean_build v : eff (clean_build matches [] v) = canon v.
+Proof.
+  induction v as [|i cs IH] using vtree_ind'; [reflexivity|].
+  rewrite clean_build_node. cbn [eff canon]. f_equal.
+  rewrite sort_by_map. f_equal.
+  unfold kept. cbn [excluded existsb]. rewrite flat_map_singleton, map_map. cbn [fst snd].
+  apply (map_pair_ext_Forall (fun x => eff (clean_build matches [] x)) canon). exact IH.
+Qed.
+
+(* a clean filtered build is the clean unfiltered build of the pruned tree *)
+Lemma clean_build_prune flt v : clean_build matches flt v = clean_build matches [] (prune matches flt v).
+Proof.
+  induction v as [|i cs IH] using vtree_ind'; [reflexivity|].
+  cbn [prune]. rewrite !clean_build_node. do 2 f_equal.
+  induction cs as [|[n c] cs IHl]; [reflexivity|].
+  inversion IH as [|? ? IHc IHcs]; subst. cbn [snd] in IHc.
+  cbn [flat_map]. unfold kept at 1. cbn [fst snd].
+  destruct (excluded matches flt n) eqn:Ex.
+  - cbn [app]. apply IHl. exact IHcs.
+  - cbn [app flat_map]. unfold kept at 2. cbn [fst snd excluded existsb app].
+    rewrite IHc. f_equal. apply IHl. exact IHcs.
+Qed.
+
+Lemma wf_v_canon v : wf_v v -> wf_v (canon v).
+Proof.
+  induction v as [|i cs IH] using vtree_ind'; intros W; [constructor|].
+  inversion W as [|? ? Wi Wd Wn Wl Wc]; subst. cbn [canon]. constructor.
+  - exact Wi.
+  - intros Hd. rewrite (Wd Hd). reflexivity.
+  - rewrite forallb_names_sort_by, names_map_snd. exact Wn.
+  - rewrite sl_flat_sort_by_length, names_map_snd. exact Wl.
+  - apply Forall_sort_by. apply Forall_map. cbn [snd].
+    rewrite Forall_forall in *. intros nc Hin. apply IH; [exact Hin | apply Wc; exact Hin].
+Qed.
+
+Lemma canon_sorted v : sorted_v v -> canon v = v.
+Proof.
+  induction v as [|i cs IH] using vtree_ind'; intros S; [reflexivity|].
+  inversion S as [|? ? Sn Sc]; subst. cbn [canon]. f_equal.
+  assert (E : map (fun nc : bytes * vtree => (fst nc, canon (snd nc))) cs = cs).
+  { clear Sn S. induction cs as [|[n c] cs IHl]; [reflexivity|].
+    inversion IH as [|? ? IHc IHcs]; subst. inversion Sc as [|? ? Sch Sct]; subst.
+    cbn [map fst snd] in *. rewrite (IHc Sch), (IHl IHcs Sct). reflexivity. }
+  rewrite E. apply sort_by_sorted. exact Sn.
+Qed.
+
+(* ---- the tree signature is injective: equal tokens <-> the same tree up to the order of the entries *)
+
+Theorem tree_tokens_injective p v1 v2 : wf_v v1 -> wf_v v2 ->
+  (tree_tokens matches [] p v1 = tree_tokens matches [] p v2 <-> canon v1 = canon v2).
+Proof.
+  intros W1 W2. unfold tree_tokens. cbn [nonempty]. split.
+  - intros E. rewrite <- !eff_clean_build. apply (tree_toks_inj _ _ p); [| | exact E].
+    + unfold wf_s. rewrite eff_clean_build. apply wf_v_canon. exact W1.
+    + unfold wf_s. rewrite eff_clean_build. apply wf_v_canon. exact W2.
+  - intros E. apply tree_toks_of_eff. rewrite !eff_clean_build. exact E.
+Qed.
+
+Corollary tree_tokens_injective_sorted p v1 v2 : wf_v v1 -> wf_v v2 -> sorted_v v1 -> sorted_v v2 ->
+  (tree_tokens matches [] p v1 = tree_tokens matches [] p v2 <-> v1 = v2).
+Proof.
+  intros W1 W2 S1 S2. rewrite (tree_tokens_injective p v1 v2 W1 W2), (canon_sorted v1 S1), (canon_sorted v2 S2). tauto.
+Qed.
+
+(* equal trees (up to entry order) give equal tokens: no hypothesis at all *)
+Theorem tree_sig_stable p v1 v2 : canon v1 = canon v2 -> tree_tokens matches [] p v1 = tree_tokens matches [] p v2.
+Proof.
+  intros E. unfold tree_tokens. apply tree_toks_of_eff. rewrite !eff_clean_build. exact E.
+Qed.
+
+(* ---- filters: the filtered signature is the filtered-mode signature of the pruned tree *)
+
+Theorem filtered_tokens_pruned flt p v :
+  tree_tokens matches flt p v = tree_toks (nonempty flt) p (clean_build matches [] (prune matches flt v)).
+Proof. unfold tree_tokens. rewrite clean_build_prune. reflexivity. Qed.
+
+Theorem filtered_struct_tokens_pruned flt p v :
+  struct_tokens matches flt p v = struct_toks (nonempty flt) p (clean_build matches [] (prune matches flt v)).
+Proof. unfold struct_tokens. rewrite clean_build_prune. reflexivity. Qed.
+
+(* whatever happens beneath excluded names cannot be seen *)
+Corollary excluded_edits_invisible flt p v1 v2 : prune matches flt v1 = prune matches flt v2 ->
+  tree_tokens matches flt p v1 = tree_tokens matches flt p v2 /\
+  struct_tokens matches flt p v1 = struct_tokens matches flt p v2.
+Proof. intros E. rewrite !filtered_tokens_pruned, !filtered_struct_tokens_pruned, E. split; reflexivity. Qed.
+
+Lemma In_names_flat_map_kept flt cs n :
+  In n (names (flat_map (kept flt) cs)) <-> In n (names cs) /\ excluded matches flt n = false.
+Proof.
+  induction cs as [|[m c] cs IH]; cbn [flat_map names map In]; [tauto|].
+  unfold names in *. rewrite map_app, in_app_iff, IH. unfold kept. cbn [fst snd].
+  destruct (excluded matches flt m) eqn:Ex; cbn [map In fst].
+  - split; [intros [[]|[H1 H2]]; auto | intros [[H|H] H2]; [subst; congruence | auto]].
+  - split; [intros [[H|[]]|[H1 H2]]; [subst; auto | auto] | intros [[H|H] H2]; auto].
+Qed.
+
+Lemma In_names_sort_by {A : Type} (l : list (bytes * A)) n : In n (names (sort_by l)) <-> In n (names l).
+Proof.
+  unfold names. rewrite !in_map_iff. split; intros [e [He Hin]]; exists e; (split; [exact He|]); apply In_sort_by; exact Hin.
+Qed.
+
+(* a name is missing from the recorded listing exactly when a pattern matches it *)
+Theorem listing_exact flt i cs n :
+  In n (listing matches flt (VNode i cs)) <-> In n (names cs) /\ excluded matches flt n = false.
+Proof.
+  unfold listing. rewrite clean_build_node. cbn [s_children]. rewrite In_names_sort_by. apply In_names_flat_map_kept.
+Qed.
+
+Theorem excluded_spec flt n : excluded matches flt n = true <-> exists pat, In pat flt /\ matches pat n = true.
+Proof. unfold excluded. apply existsb_exists. Qed.
+
+Theorem listing_is_filtered flt i cs n : In n (listing matches flt (VNode i cs)) <-> In n (filtered_listing matches flt (names cs)).
+Proof.
+  rewrite listing_exact. unfold filtered_listing. rewrite filter_In. rewrite negb_true_iff. tauto.
+Qed.
+End WithMatch.
